@@ -555,7 +555,8 @@ fn join_accept(idx: u64, rng: &mut Prng, col: &mut Collector) {
                 p.join_nonce().value(),
                 p.net_id().value(),
                 p.dev_addr().value(),
-                p.dl_settings().raw_value(),
+                // raw octet, and the two fields the accessors cut out of it (RX1DROffset bits 6..4, RX2 data rate bits 3..0)
+                p.dl_settings().raw_value() as u32 | (p.dl_settings().rx1_dr_offset() as u32) << 8 | (p.dl_settings().rx2_data_rate() as u32) << 16,
                 p.rx_delay(),
                 cf,
                 p.derive_nwkskey(lorawan::parser::DevNonce::from_value(dev_nonce), &kc).inner().0,
@@ -592,7 +593,7 @@ fn join_accept(idx: u64, rng: &mut Prng, col: &mut Collector) {
                 }
                 _ => None,
             });
-            if jn != rd.join_nonce || ni != rd.net_id || da != rd.dev_addr || dl != rd.dl_settings || rxd != (rd.rx_delay & 0x0f) || cf != exp_cf || clear_bytes != clear || mic != clear[clear.len() - 4..] {
+            if jn != rd.join_nonce || ni != rd.net_id || da != rd.dev_addr || dl != (rd.dl_settings as u32 | ((rd.dl_settings as u32 >> 4) & 7) << 8 | (rd.dl_settings as u32 & 0x0f) << 16) || rxd != (rd.rx_delay & 0x0f) || cf != exp_cf || clear_bytes != clear || mic != clear[clear.len() - 4..] {
                 col.violation("C02|ja|fields-differ", "decoded JoinAccept fields differ from the reference", json!({"bytes": hex(&w), "key": hex(&usekey), "clear": hex(&clear)}));
             }
             if nk != rn || ak != ra {
